@@ -58,6 +58,11 @@ type Mutation struct {
 	New    string
 	Expect string // substring expected in some failing obligation key (rule|construct)
 	Also   []Edit // further edits of the same mutation (same or other files)
+	// Benign marks a behaviour-preserving edit (rename, helper extraction, reordering of independent statements):
+	// the property still holds, so the check must stay silent — no new failure and no "undecided".
+	Benign bool
+	All     bool   // replace every occurrence of Old in File (renames); Old must occur at least once
+	AlsoAll []Edit // further replace-every-occurrence edits
 }
 
 // Edit is one exact, unique text replacement.
@@ -68,7 +73,18 @@ type Edit struct {
 // overlayFor applies the mutation's edits in memory. Every anchor must occur exactly once.
 func overlayFor(repo string, m Mutation) (map[string][]byte, string) {
 	ov := map[string][]byte{}
-	for _, e := range append([]Edit{{m.File, m.Old, m.New}}, m.Also...) {
+	type edit struct {
+		Edit
+		All bool
+	}
+	edits := []edit{{Edit{m.File, m.Old, m.New}, m.All}}
+	for _, e := range m.Also {
+		edits = append(edits, edit{e, false})
+	}
+	for _, e := range m.AlsoAll {
+		edits = append(edits, edit{e, true})
+	}
+	for _, e := range edits {
 		path := filepath.Join(repo, e.File)
 		src, have := ov[path]
 		if !have {
@@ -78,10 +94,15 @@ func overlayFor(repo string, m Mutation) (map[string][]byte, string) {
 			}
 			src = b
 		}
-		if n := strings.Count(string(src), e.Old); n != 1 {
+		n := strings.Count(string(src), e.Old)
+		if (e.All && n == 0) || (!e.All && n != 1) {
 			return nil, fmt.Sprintf("anchor occurs %d times in %s", n, e.File)
 		}
-		ov[path] = []byte(strings.Replace(string(src), e.Old, e.New, 1))
+		if e.All {
+			ov[path] = []byte(strings.ReplaceAll(string(src), e.Old, e.New))
+		} else {
+			ov[path] = []byte(strings.Replace(string(src), e.Old, e.New, 1))
+		}
 	}
 	return ov, ""
 }
@@ -100,6 +121,18 @@ func selfTestResults(prop string, fn checkFn, repo, verif string) []map[string]s
 			continue
 		}
 		res := runCheck(prop, "quick", repo, verif, ov, fn, true)
+		if m.Benign {
+			rec["kind"] = "benign"
+			rec["result"] = "silent"
+			if nf := res.run.newFailures(); len(nf) > 0 {
+				rec["result"] = "false alarm"
+				rec["reported"] = nf[0].Key()
+			} else if len(res.run.Undecided) > 0 {
+				rec["result"] = "undecided: " + strings.Join(res.run.Undecided, "; ")
+			}
+			out = append(out, rec)
+			continue
+		}
 		rec["result"] = "missed"
 		for _, o := range res.run.newFailures() {
 			if strings.Contains(o.Key(), m.Expect) {
@@ -130,6 +163,20 @@ func runSelfTest(prop string, fn checkFn, repo, verif string) int {
 			continue
 		}
 		res := runCheck(prop, "quick", repo, verif, ov, fn, true)
+		if m.Benign {
+			nf := res.run.newFailures()
+			switch {
+			case len(nf) > 0:
+				fmt.Printf("selftest %s/%s: FALSE ALARM on a behaviour-preserving edit: %s\n", prop, m.Name, nf[0].Key())
+				failed++
+			case len(res.run.Undecided) > 0:
+				fmt.Printf("selftest %s/%s: UNDECIDED on a behaviour-preserving edit %v\n", prop, m.Name, res.run.Undecided)
+				failed++
+			default:
+				fmt.Printf("selftest %s/%s: SILENT (benign edit, as required)\n", prop, m.Name)
+			}
+			continue
+		}
 		hit := false
 		var keys []string
 		for _, o := range res.run.newFailures() {
